@@ -11,17 +11,17 @@ def describe(tier):
         rule="history system: from every validated object of the history sub-universe (live poisoned neighbours flush on both sides; in the thorough tier "
         "also from every state one legal assignment later), every misuse of the property's list at every element position: index tuples with a "
         "component in {-1, dim, dim+1} (read and write), whole-array update of other length / other shape with equal item count, string longer than "
-        "the space fixed at creation (by 1 byte, a slot, many), same-length list of larger dynamic items, non-member value for a union reference; "
+        "the space fixed at creation (by 1 byte, a slot, many), same-length list with one larger dynamic item (first item; last item in memory order with the earlier ones replaced / shrunk so that the total does not grow), whole-struct dictionary whose last dynamic part is too large while earlier fields change, non-member value for a union reference; "
         "plus constructor misuse on the whole universe (_buffer of another context together with _context; _offset without _buffer). "
         "Oracle: an exception is raised and victim + neighbours read back unchanged.",
         bounds=dict(history_types=len(universe.rh(tier)), legal_prefix_depth=0 if tier == "quick" else 1),
         assumptions=["only the misuse classes named by the property are demanded to raise"],
-        must_fire=["x-index", "x-len", "x-str", "x-items", "x-union", "x-ctx", "x-offset"],
+        must_fire=["x-index", "x-len", "x-str", "x-items", "x-struct", "x-union", "x-ctx", "x-offset"],
     )
 
 
 def shards(tier, seed):
-    vm = ["ramp"] if tier == "quick" else ["ramp", "extreme"]
+    vm = ["ramp", "long"] if tier == "quick" else ["ramp", "long", "extreme"]
     out = [("hist", t, v, p) for t in universe.rh(tier) for v in vm for p in ("dirtyhole", "dirtyhole2")]
     out += [("ctor", c) for c in cons.chunk(universe.universe(tier), 16)]
     return out[seed % len(out):] + out[: seed % len(out)]
@@ -78,6 +78,18 @@ def grow_value(t, v):
     return None
 
 
+def shrink_value(t, v):
+    """a smaller value of the same shape (strings emptied)"""
+    k = t[0]
+    if k == "Str":
+        return ""
+    if k == "St":
+        return {n: shrink_value(ft, v[n]) for n, ft in t[1]}
+    if k == "A":
+        return {"shape": v["shape"], "items": {i: shrink_value(t[1], x) for i, x in v["items"].items()}}
+    return v
+
+
 def misuse_menu(s, opts, d):
     if d < opts.get("prefix", 0):
         o = dict(opts)
@@ -109,9 +121,15 @@ def misuse_menu(s, opts, d):
                         evs.append(("x-len", via, path, "shorter"))
                     if len(shape) > 1 and len(set(shape)) > 1 and all(sh > 0 for sh in shape):
                         evs.append(("x-len", via, path, "reshape"))
-                    if xt.is_dyn(nt[1]) and nv["items"] and grow_value(nt, nv) is not None and not any(d is None for d in nt[2]) or \
-                            xt.is_dyn(nt[1]) and nv["items"] and grow_value(nt[1], next(iter(nv["items"].values()))) is not None:
-                        evs.append(("x-items", via, path))
+                    if xt.is_dyn(nt[1]) and nv["items"] and grow_value(nt[1], next(iter(nv["items"].values()))) is not None:
+                        evs.append(("x-items", via, path, "first"))
+                        if len(nv["items"]) > 1:
+                            evs.append(("x-items", via, path, "last-alt"))
+                            if any(st[0] == "Str" for st in xt.subtypes(nt[1])):
+                                evs.append(("x-items", via, path, "last-shrink"))
+        elif nt[0] == "St" and path and path[-1] not in ("*", "#") and len(nt[1]) > 1 and xt.is_dyn(nt) and grow_value(nt, nv) is not None:
+            for via in ("h", "v"):
+                evs.append(("x-struct", via, path))
         elif nt[0] == "Str" and path:
             for extra in (1, 8, 64):
                 for via in ("h", "v"):
@@ -166,13 +184,30 @@ def apply_misuse(s, ev):
         room = s.rooms[ev[2]]
         hand.assign(rt, rh, path, "L" * (room + ev[3]))
     elif kind == "x-items":
-        g = grow_value(nt, nv) if not any(d is None for d in nt[2]) else None
-        if g is None:
-            first = next(iter(nv["items"]))
-            items = dict(nv["items"])
-            items[first] = grow_value(nt[1], items[first])
-            g = {"shape": nv["shape"], "items": items}
+        variant = ev[3]
+        items = dict(nv["items"])
+        order = list(xt.mem_indices(nv["shape"], nt[3]))
+        if variant == "first":
+            k = next(iter(items))
+            items[k] = grow_value(nt[1], items[k])
+        else:
+            last = order[-1]
+            for j, k in enumerate(order[:-1]):
+                items[k] = hist.same_size_alt(nt[1], items[k], j) if variant == "last-alt" else shrink_value(nt[1], items[k])
+            items[last] = grow_value(nt[1], items[last])
+        g = {"shape": nv["shape"], "items": items}
         hand.assign(rt, rh, path, xt.to_py(nt, g))
+    elif kind == "x-struct":
+        # every field before the last growable one gets another (fitting) value, the last growable part is too large
+        d = {}
+        names = [n for n, ft in nt[1]]
+        growable = [n for n, ft in nt[1] if grow_value(ft, nv[n]) is not None]
+        for j, (n, ft) in enumerate(nt[1]):
+            if n == growable[-1]:
+                d[n] = grow_value(ft, nv[n])
+            else:
+                d[n] = hist.same_size_alt(ft, nv[n], j) if not xt.has_refs(ft) else nv[n]
+        hand.assign(rt, rh, path, xt.to_py(nt, d))
     elif kind == "x-union":
         if ev[3] == "foreign-object":
             class NotAMember(xo.Struct):
